@@ -57,6 +57,14 @@ def main() -> int:
             print("refusing: worktree not clean")
             return 2
         rc, out = sh(f"git -C {REPO} apply {patch}")
+        if rc != 0:
+            # the tree has moved on (repairs): try a three-way merge on the blobs the patch names
+            rc, out3 = sh(f"git -C {REPO} apply --3way {patch}")
+            if rc != 0:
+                sh(f"git -C {REPO} reset -q --hard")
+                out = out + " | 3-way: " + out3[-200:]
+            else:
+                sh(f"git -C {REPO} reset -q")  # keep the merged working tree, unstage
         meta = {"property": pid, "variant": x, "source": "independent sub-agent asked for behaviour-preserving refactorings",
                 "diffstat": sh(f"git -C {REPO} diff --shortstat")[1].strip(), "checks": {}}
         if "--own" in sys.argv and (d / "meta.json").exists():
@@ -77,6 +85,7 @@ def main() -> int:
                     bad += rc != 0
             finally:
                 sh(f"git -C {REPO} checkout -- src tests")
+                sh(f"git -C {REPO} clean -fdq -- src tests")
         (d / "meta.json").write_text(json.dumps(meta, indent=1))
     if notes:
         (V / "refactors" / f"notes_{src.parent.name}{tag}.md").write_text(notes)
